@@ -13,6 +13,8 @@ package main
 //      [5 v] ratio.IncB(v)           -> obs []
 //      [6]   ratio.Ratio()           -> obs [numerator, denominator, IsReady()]
 //      [7]   ratio.Reset()           -> obs []
+//      [8 v] o := NewCounter(same); o.Inc(v); Append(o)   -> obs []   (an increment of v made now)
+//      [9]   Append(Clone())         -> obs []   (an increment of the current count made now)
 //
 // The Ratio observable.  RatioCounter exports CountA() and CountB() next to Ratio() float64.  The harness
 // calls Ratio() first, then CountA(), CountB(), IsReady() at the same frozen instant (Count is idempotent
@@ -104,6 +106,10 @@ func (c *counterComp) Gen(rng *rand.Rand, idx int, tier string, targeted bool) h
 	for i := 0; i < nops; i++ {
 		k := rng.Intn(100)
 		switch {
+		case k < 3:
+			h.Ops = append(h.Ops, []int64{8, int64(rng.Intn(6))})
+		case k < 5:
+			h.Ops = append(h.Ops, []int64{9})
 		case k < 22:
 			h.Ops = append(h.Ops, []int64{0, int64(rng.Intn(6))})
 		case k < 42:
@@ -148,11 +154,11 @@ func (c *counterComp) Run(h *hlib.History) ([]hlib.Mon, bool) {
 	for _, op := range h.Ops {
 		ok := false
 		switch {
-		case len(op) == 2 && (op[0] == 0 || op[0] == 4 || op[0] == 5):
+		case len(op) == 2 && (op[0] == 0 || op[0] == 4 || op[0] == 5 || op[0] == 8):
 			ok = op[1] >= 0 && op[1] < 1<<20
 		case len(op) == 2 && op[0] == 2:
 			ok = op[1] >= 0 && op[1] < 1<<50
-		case len(op) == 1 && (op[0] == 1 || op[0] == 3 || op[0] == 6 || op[0] == 7):
+		case len(op) == 1 && (op[0] == 1 || op[0] == 3 || op[0] == 6 || op[0] == 7 || op[0] == 9):
 			ok = true
 		}
 		if !ok {
@@ -247,6 +253,22 @@ func (c *counterComp) Run(h *hlib.History) ([]hlib.Mon, bool) {
 			rc.Reset()
 			la, lb = nil, nil
 			h.Obs = append(h.Obs, []int64{})
+		case 8:
+			o, err := memmetrics.NewCounter(int(n), time.Duration(r))
+			if err != nil {
+				return nil, false
+			}
+			o.Inc(int(op[1]))
+			_ = cnt.Append(o)
+			l0 = append(l0, ev{now, op[1]})
+			h.Obs = append(h.Obs, []int64{})
+		case 9:
+			o := cnt.Clone()
+			amount := o.Count()
+			check(step, "Clone().Count()", l0, amount)
+			_ = cnt.Append(o)
+			l0 = append(l0, ev{now, amount})
+			h.Obs = append(h.Obs, []int64{})
 		}
 	}
 	return mons, true
@@ -271,6 +293,10 @@ func (c *counterComp) Describe(h *hlib.History) interface{} {
 			s = fmt.Sprintf("IncB(%d)", op[1])
 		case 6:
 			s = "Ratio"
+		case 8:
+			s = fmt.Sprintf("Append(fresh counter holding %d)", op[1])
+		case 9:
+			s = "Append(Clone())"
 		default:
 			s = "RatioReset"
 		}
@@ -291,8 +317,13 @@ func (c *counterComp) Nontrivial(h *hlib.History) string {
 			break
 		}
 		switch op[0] {
-		case 0:
+		case 0, 8:
 			tot += op[1]
+			if op[0] == 8 {
+				hlib.Count("appends", 1)
+			}
+		case 9:
+			hlib.Count("appends_of_clone", 1)
 		case 3:
 			tot = 0
 		case 1:
